@@ -9,7 +9,7 @@
  *                                      deadlines (M = "-" or "ms,mu")
  *   met|timeout,maxtimeout|op;op..     ares_metrics_record / ares_metrics_server_timeout on a
  *                                      fabricated server; op = r,qs,qu,ns,nu,status,rcode | q,ns,nu
- *   pt|S,tries,timeout,maxtimeout|s1,u1;s2,u2;...|ps,pu
+ *   pt|S,tries,timeout,maxtimeout[,16]|s1,u1;s2,u2;...|ps,pu     (16 = usevc: one shared TCP connection)
  *                                      queries sent at the given instants to silent servers, then
  *                                      one ares_process_fd() at instant p: which were re-sent / ended
  * Channel cases drive one query through a real channel with virtual sockets, a virtual clock
@@ -672,19 +672,20 @@ static void case_retry(char *args)
 /* ------------------------------------------------------------------ pt: process_timeouts over several queries */
 static void case_pt(char *args)
 {
-  char           *parts[3], *cfg[4], *sends[300];
-  int             n, i, S;
+  char           *parts[3], *cfg[5], *sends[300];
+  int             n, i, S, ncfg, flags = 32 /* no EDNS: no cookie draws */;
   long long       tries, timeout, maxtimeout;
   ares_channel_t *ch;
   ares_timeval_t  P;
   struct timeval  tvbuf, *tv;
-  if (split(args, '|', parts, 3) != 3 || split(parts[0], ',', cfg, 4) != 4 || !tvparse(parts[2], &P)) { OUT("R BADCASE"); return; }
+  if (split(args, '|', parts, 3) != 3 || (ncfg = split(parts[0], ',', cfg, 5)) < 4 || !tvparse(parts[2], &P)) { OUT("R BADCASE"); return; }
+  if (ncfg == 5) flags |= (int)num(cfg[4]) & 16; /* optional: usevc - all queries share the server's one TCP connection */
   S = (int)num(cfg[0]); tries = num(cfg[1]); timeout = num(cfg[2]); maxtimeout = num(cfg[3]);
   n = split(parts[1], ';', sends, 300);
   jmode = 0; rng_state = (unsigned long long)(K * 2654435761u + 99); idctr = 0;
   vs_reset();
   cb_called = 0;
-  ch = mk_channel(S, tries, timeout, maxtimeout, 32 /* no EDNS: no cookie draws */);
+  ch = mk_channel(S, tries, timeout, maxtimeout, flags);
   if (!ch) { OUT("R NOCHANNEL"); return; }
   OUT("CFG %lu %lu %lu %lu", (unsigned long)ares_slist_len(ch->servers), (unsigned long)ch->tries,
       (unsigned long)ch->timeout, (unsigned long)ch->maxtimeout);
@@ -701,10 +702,12 @@ static void case_pt(char *args)
     ares_send_dnsrec(ch, rec, q_cb, (void *)(size_t)i, &qid);
     ares_dns_record_destroy(rec);
     OUT("Q %d %u", i, (unsigned int)qid);
+    pump_tcp(ch);
   }
   vnow = P;
   OUT("E process");
   ares_process_fd(ch, ARES_SOCKET_BAD, ARES_SOCKET_BAD);
+  pump_tcp(ch);
   tv = ares_timeout(ch, NULL, &tvbuf);
   if (tv == NULL) OUT("H none");
   else OUT("H %lld %lld", (long long)tv->tv_sec, (long long)tv->tv_usec);
